@@ -260,7 +260,12 @@ func (r *Resolver) compute(v ssa.Value, d int) *Term {
 			return &Term{Op: "closure", Name: "func:" + r.P.Name(fn)}
 		}
 	case *ssa.Alloc:
-		return &Term{Op: "alloc", Name: "&" + allocName(x)}
+		// address of a local: name it by what the local holds, not by its source name
+		c := r.allocContent(x, -1, d+1)
+		if c.Op == "alloc" || c.Op == "zero" {
+			return &Term{Op: "alloc", Name: "&" + allocName(x)}
+		}
+		return &Term{Op: "un", Name: "&", Args: []*Term{c}}
 	case *ssa.FieldAddr:
 		// address term: only meaningful under a load; give a name anyway
 		base := r.of(x.X, d+1)
@@ -347,6 +352,9 @@ func allocName(a *ssa.Alloc) string {
 func stripAddr(t *Term) *Term {
 	if t.Op == "alloc" {
 		return &Term{Op: "alloc", Name: strings.TrimPrefix(t.Name, "&"), V: t.V}
+	}
+	if t.Op == "un" && t.Name == "&" {
+		return t.Args[0]
 	}
 	return t
 }
@@ -536,6 +544,13 @@ func (r *Resolver) allocContent(a *ssa.Alloc, _ int, d int) *Term {
 		t.str = ""
 		t.Unstable = true
 		return &t
+	}
+	if len(whole) > 1 && len(whole) <= 4 {
+		var args []*Term
+		for _, w := range whole {
+			args = append(args, r.of(w.Val, d+1))
+		}
+		return &Term{Op: "phi", Name: allocName(a), Args: args, Unstable: true}
 	}
 	return &Term{Op: "alloc", Name: allocName(a), Unstable: true}
 }
